@@ -69,10 +69,12 @@ def _sequence_main(path):
     spec_all = json.load(open(path))
     prop, seed, tier = spec_all["prop"], spec_all["seed"], spec_all["tier"]
     seed_fn = globals().get("seed_" + prop)
-    for spec in spec_all["groups"]:
+    for gi, spec in enumerate(spec_all["groups"]):
         mod = importlib.import_module(spec["module"])
         gen = mod.GROUPS[spec["group"]]
         n = spec["thorough"] if tier == "thorough" else spec["quick"]
+        os.environ["TZ"] = _check.PROCESS_ZONES[(seed + gi) % len(_check.PROCESS_ZONES)]   # as stage B did
+        time.tzset()
         rng = random.Random((seed * 1000003) ^ _check.hash_str(spec["group"]))
         count = 0
         for c in gen(rng, n, tier):
@@ -82,8 +84,8 @@ def _sequence_main(path):
                 r = seed_fn(m) if seed_fn else None
                 if r:
                     r["sequence"] = ("a fresh interpreter makes the calls of the correspondence groups "
-                                     "in order (VERIF_SEED=%d); this is call %d of group %r" % (
-                                         seed, count, spec["group"]))
+                                     "in order (VERIF_SEED=%d); this is call %d of group %r, process "
+                                     "TZ=%s" % (seed, count, spec["group"], os.environ["TZ"]))
                     print(json.dumps(r, default=str))
                 return
     return
